@@ -214,6 +214,9 @@ class Model:
     parse_errors: List[str] = field(default_factory=list)
     normalisation: Dict[str, object] = field(default_factory=dict)
     deletion_only: Set[str] = field(default_factory=set)  # functions that differ from the reference only by removed statements (and whose module got no new function)
+    same_effects: Set[str] = field(default_factory=set)  # functions whose effect fingerprint equals the reference function's (nv/fingerprint.py)
+    tree_equivalent: bool = False  # every reference function and every module level unchanged in effect
+    effect_differences: List[str] = field(default_factory=list)
     drift: Dict[str, Optional[int]] = field(default_factory=dict)  # statement-skeleton distance of each function from the reference tree (None: new function)
 
     def mod(self, name: str) -> Module:
@@ -399,6 +402,16 @@ def load_model(repo: str | os.PathLike = "/repo", normalize: bool = True) -> Mod
         model.modules[p.stem] = mod
     if len(model.modules) < 10:
         raise AnalysisError(f"only {len(model.modules)} modules parsed under {src}")
+    model.same_effects, model.tree_equivalent, model.effect_differences = set(), False, []
+    if normalize and os.environ.get("NV_NO_NORMALIZE") != "1" and os.environ.get("NV_NO_FINGERPRINT") != "1":
+        fpf = Path(__file__).resolve().parent / "reffp.json"
+        if fpf.exists():
+            import json as _json
+            from .fingerprint import compare_with_reference
+            try:
+                model.same_effects, model.tree_equivalent, model.effect_differences = compare_with_reference(model, _json.loads(fpf.read_text()))
+            except Exception:  # the comparison is an optimisation of precision: without it every reading stands on its own
+                model.same_effects, model.tree_equivalent, model.effect_differences = set(), False, ["<comparison failed>"]
     return model
 
 
